@@ -299,7 +299,7 @@ def document(input_file: str, settings: Settings):
             # our index.rst, now just loop over files with the .cmake
             # extension and document them
             for file in filenames:
-                if "cmake" == file.split(".")[-1].lower():
+                if file.lower().endswith(".cmake"):
                     document_single_file(
                         os.path.join(
                             root,
